@@ -80,7 +80,7 @@ fn twin_key<C: KeyColl>(rep: &mut Report, hint_a: usize, hint_b: usize, prefix: 
     if prefix.is_empty() {
         rep.counters.inc("clears_of_empty_collection");
     }
-    let base = a.next_id - 1;
+    let base = a.next_id;
     let mut b = KeyExec::<C>::new(hint_b);
     for (i, op) in suffix.iter().enumerate() {
         ctx::set(hist, (prefix.len() + 1 + i) as u64);
@@ -140,7 +140,7 @@ fn twin_ord<C: ord::OrdColl>(rep: &mut Report, hint_a: usize, hint_b: usize, uni
     if prefix.is_empty() {
         rep.counters.inc("clears_of_empty_collection");
     }
-    let base = if C::UNIQUE_IDS { a.next_id - 1 } else { 0 };
+    let base = if C::UNIQUE_IDS { a.next_id } else { 0 };
     let mut b = OrdExec::<C>::new(hint_b, uni);
     for (i, op) in suffix.iter().enumerate() {
         ctx::set(hist, (prefix.len() + 1 + i) as u64);
@@ -760,7 +760,7 @@ fn big_kquery_case(n: usize, order: &str, hint: usize, rng: &mut Rng, rep: &mut 
                 let k = ((lim - 1) / 2).min(n as i32 - 1); // index of the greatest odd key <= lim
                 k as u64 + 1
             };
-            let probe = KKey { k: q, exp: i32::MAX, tag: 1 };
+            let probe = KKey { k: q, exp: key::probe_stamp(q as u32, tq), tag: 1 };
             rep.evaluations += 4;
             rep.counters.add("big_key_queries", 4);
             let fl = t.first_less(tq, u64::MAX, probe);
@@ -786,7 +786,7 @@ fn big_kquery_case(n: usize, order: &str, hint: usize, rng: &mut Rng, rep: &mut 
     let tq = 11;
     for p in big_probes(n, &sorted, rng).into_iter().take(400) {
         let q = 2 * p + 1;
-        let probe = KKey { k: q, exp: i32::MAX, tag: 1 };
+        let probe = KKey { k: q, exp: key::probe_stamp(q as u32, tq), tag: 1 };
         // greatest odd-indexed k with 2k+1 <= q
         let mut k = p.min(n as i32 - 1);
         if k >= 0 && k % 2 == 0 {
@@ -1036,7 +1036,7 @@ fn big_clear_case(coll: &str, n: usize, order: &str, hint: usize, rng: &mut Rng,
                 fresh.insert(KKey { k, exp: 50, tag: 0 }, k as u64, 0);
             }
             for &p in &sample {
-                let probe = KKey { k: p, exp: i32::MAX, tag: 1 };
+                let probe = KKey { k: p, exp: key::probe_stamp(p as u32, 1), tag: 1 };
                 let a = (t.get_value(1, probe), t.first_less_or_equal(1, u64::MAX, probe));
                 let b = (fresh.get_value(1, probe), fresh.first_less_or_equal(1, u64::MAX, probe));
                 rep.evaluations += 1;
